@@ -1365,6 +1365,56 @@ func ruleMove(c *Ctx) {
 			}
 		}
 		chk("destination resolved after removal", destOK, destWhy, destWhy, a)
+		// the whole document cannot be moved: "" as the source is refused before it is resolved
+		// (v5; the resolver answers "" with the document and the empty key, and a root member
+		// named "" would be taken for the document if the refusal were left to the lookup)
+		if b.Name == "v5" {
+			var fcs []ssa.Instruction
+			allInstrs(fn, func(i ssa.Instruction) {
+				if call, ok := i.(*ssa.Call); ok && b.isFindObjectCall(&call.Call) {
+					fcs = append(fcs, call)
+				}
+			})
+			okRef, whyRef := false, "no test of the source pointer against \"\" that returns an error in front of every resolver call: the lookup of the empty key decides, and it succeeds for a document that has a member named \"\""
+			for _, bb := range fn.Blocks {
+				iff, isIf := lastInstr(bb).(*ssa.If)
+				if !isIf {
+					continue
+				}
+				c0, neg := stripNot(iff.Cond)
+				bo, isBin := c0.(*ssa.BinOp)
+				if !isBin || (bo.Op != token.EQL && bo.Op != token.NEQ) {
+					continue
+				}
+				var other ssa.Value
+				if s0, ok := strConst(bo.Y); ok && s0 == "" {
+					other = bo.X
+				} else if s0, ok := strConst(bo.X); ok && s0 == "" {
+					other = bo.Y
+				}
+				if other == nil || !isAccessorResult(other, "From") {
+					continue
+				}
+				emptySucc := 0
+				if (bo.Op == token.NEQ) != neg {
+					emptySucc = 1
+				}
+				ret, isRet := lastInstr(bb.Succs[emptySucc]).(*ssa.Return)
+				if !isRet || len(ret.Results) == 0 || isNilConst(ret.Results[len(ret.Results)-1]) {
+					continue
+				}
+				all := len(fcs) > 0
+				for _, fc := range fcs {
+					if !bb.Dominates(fc.Block()) || bb == fc.Block() {
+						all = false
+					}
+				}
+				if all {
+					okRef, whyRef = true, "from == \"\" returns an error at "+b.posOf(iff)+", in front of every resolver call"
+				}
+			}
+			chk("the whole document as source is refused before it is resolved", okRef, whyRef, whyRef, g)
+		}
 	}
 }
 
@@ -1636,6 +1686,7 @@ func ruleSuccess(c *Ctx) {
 		}
 		b.refusalReasons(l, ai)
 		b.resolverAndMergeRefusals(l, "R-SUCCESS")
+		b.onlyTheEncoderFailsAfterTheLoop(l, ai)
 		need := map[string]string{"add": "add", "move": "add", "copy": "add", "replace": "set", "remove": "remove", "test": ""}
 		for _, k := range rfc6902Kinds {
 			h := ai.handlers[k]
@@ -2610,4 +2661,18 @@ func (b *Body) freshResult(call *ssa.Call, idx int, depth int) (bool, string) {
 		return false, fname(f) + " never returns bytes"
 	}
 	return true, "the result of " + fname(f) + " (" + why + ")"
+}
+
+// isAccessorResult: v is result 0 of a call of the Operation accessor of that name.
+func isAccessorResult(v ssa.Value, name string) bool {
+	ex, ok := unwrapConv(v).(*ssa.Extract)
+	if !ok || ex.Index != 0 {
+		return false
+	}
+	call, ok := ex.Tuple.(*ssa.Call)
+	if !ok {
+		return false
+	}
+	f := call.Call.StaticCallee()
+	return f != nil && recvTypeName(f) == "Operation" && f.Name() == name
 }
